@@ -18,6 +18,7 @@ VERS = ['4.3.19', '5.1.5', '10.0.1', '5.1.5_hf7', '4.2.17.1', '5.1.5.0']
 EXPECTED = [['4.3.19', '5.1.5', '10.0.1'], ['5.1.5', '10.0.1'], ['10.0.1'], ['4.2.17.1']]
 DSTS = [['development/4.3', 'development/5.1', 'development/10.0'], ['development/5.1', 'development/10.0'],
         ['development/10.0'], ['hotfix/4.2.17']]
+NEAR_MISS = ['bug', 'bugfixes', 'BUGFIX', 'feature', 'b', 'ugfix']      # = Jira.tla NearMiss
 SRC = {'none': 'bugfix/some-fix', 'upper': 'bugfix/TEST-12-fix', 'lower': 'bugfix/test-12-fix',
        'other': 'bugfix/OTHER-3-fix'}
 
@@ -60,7 +61,10 @@ def check(tier, seed):
         classes = set()
         ypath = os.path.join(scratch, 'c11.yml')
         for line in lines:
-            bypass_sources = ['option', 'per-author', 'command line', 'prefix'] if line['bypass'] else ['none']
+            # a non-bypassed row is also run with bypass_prefixes made of near misses of the source prefix
+            # (Jira.tla NearMiss: PrefixBypassed is list membership of the whole prefix, nothing looser)
+            bypass_sources = ['option', 'per-author', 'command line', 'prefix'] if line['bypass'] \
+                else ['none', 'near-prefix']
             for src in bypass_sources:
                 y = ['repository_owner: o', 'repository_slug: s', 'repository_host: mock', 'robot: robot',
                      'robot_email: r@x.org']
@@ -72,6 +76,8 @@ def check(tier, seed):
                     y += ['disable_version_checks: true']
                 if src == 'prefix':
                     y += ['bypass_prefixes:', '  - bugfix']
+                if src == 'near-prefix':
+                    y += ['bypass_prefixes:'] + ['  - ' + x for x in NEAR_MISS]
                 y += ['pr_author_options:', '  aaa_other:', '    - bypass_jira_check',
                       '  author:', '    - bypass_build_status', '    - bypass_peer_approval']
                 if src == 'per-author':
@@ -126,7 +132,7 @@ def check(tier, seed):
         states=cases, transitions=cases, traces_validated_against_impl=n,
         samples=[dict(config={k: v for k, v in lines[0].items() if k != 'res'}, expected_vector_head=lines[0]['res'][:6])],
         evaluations=n, distinct_nontrivial=len(classes),
-        rule='every (configured, bypass [4 sources], version checks, issue types configured) x source ticket '
+        rule='every (configured, bypass [4 sources; non-bypassed rows also with 6 near-miss bypass_prefixes], version checks, issue types configured) x source ticket '
              'fragment (none / upper / lower case / other project) x issue (absent, Bug, Story, unconfigured type) '
              'x every subset of a 6-version fixVersions universe (plain, suffixed, x.y.z.n, x.y.z.0) x 4 expected '
              'version lists (3, 2, 1 development targets, hotfix target); distinct = (outcome, key, issue, targets)',
